@@ -431,7 +431,136 @@ func c05(r *core.Report) {
 	c05DeepObject(r)
 	c05Narrow(r)
 	c05Text(r)
+	c05ArraySize(r)
+	c05Found(r)
 	_ = p
+}
+
+// c05Found: presence of an object parameter is judged on what was decoded.
+func c05Found(r *core.Report) {
+	p := r.Prog
+	info := p.Pkg("openapi3filter").TypesInfo
+	r.RunRule("C05.found", "an object parameter that decoded to something is present: urlValuesDecoder.DecodeObject sets its `found` result also under `len(<decoded object>) != 0`, not only when a declared property name occurs among the keys — an object schema with additionalProperties only has no declared property, and its required parameter would be reported missing while its value is there", 1, func() {
+		fd := p.DeclOf("openapi3filter", "urlValuesDecoder.DecodeObject")
+		good := false
+		ast.Inspect(fd.Body, func(nd ast.Node) bool {
+			as, ok := nd.(*ast.AssignStmt)
+			if !ok || len(as.Lhs) != 1 || len(as.Rhs) != 1 || core.ExprStr(as.Lhs[0]) != "found" || core.ExprStr(as.Rhs[0]) != "true" {
+				return true
+			}
+			atoms := core.Atoms(core.GuardsAt(info, fd.Body, as))
+			// the innermost condition is the emptiness test of the decoded map, and no loop over the
+			// declared properties encloses the assignment
+			if path := core.PathTo(fd.Body, as); path != nil {
+				inLoop := false
+				var inner *ast.IfStmt
+				for _, n := range path {
+					switch x := n.(type) {
+					case *ast.RangeStmt, *ast.ForStmt:
+						inLoop = true
+					case *ast.IfStmt:
+						inner = x
+					}
+				}
+				if !inLoop && inner != nil {
+					if be, ok := ast.Unparen(inner.Cond).(*ast.BinaryExpr); ok && (be.Op == token.NEQ || be.Op == token.GTR) && core.ExprStr(be.Y) == "0" {
+						if c, ok := ast.Unparen(be.X).(*ast.CallExpr); ok && len(c.Args) == 1 && core.ExprStr(c.Fun) == "len" {
+							if _, isMap := info.TypeOf(c.Args[0]).Underlying().(*types.Map); isMap {
+								good = true
+							}
+						}
+					}
+				}
+			}
+			_ = atoms
+			return true
+		})
+		r.Check(good, "found:decoded-object", p.Pos(fd.Pos()), "found is set when the decoded object is not empty", "urlValuesDecoder.DecodeObject reports the parameter as found only when one of the schema's declared properties occurs: an object decoded through additionalProperties alone is returned with found=false, and a required parameter that is present is rejected as missing")
+	})
+}
+
+// c05ArraySize: a deepObject array has as many items as its highest index says.
+func c05ArraySize(r *core.Report) {
+	p := r.Prog
+	info := p.Pkg("openapi3filter").TypesInfo
+	r.RunRule("C05.arraysize", "the length of a decoded deepObject array is the highest index plus one: in sliceMapToSlice the variable that bounds the loop building the result is, inside loops, assigned only under a comparison of the assigned index with the variable itself (a running maximum over the parsed integer indexes) — taking the last key of an ordering instead (keys sorted as text put \"9\" after \"10\") cuts arrays of more than ten items; and a negative index is an error, not dropped", 2, func() {
+		fd := p.DeclOf("openapi3filter", "sliceMapToSlice")
+		var bound types.Object
+		ast.Inspect(fd.Body, func(nd ast.Node) bool {
+			fs, ok := nd.(*ast.ForStmt)
+			if !ok || fs.Cond == nil {
+				return true
+			}
+			if be, ok := ast.Unparen(fs.Cond).(*ast.BinaryExpr); ok && (be.Op == token.LEQ || be.Op == token.LSS) {
+				if id, ok := ast.Unparen(be.Y).(*ast.Ident); ok {
+					bound = info.ObjectOf(id)
+				}
+			}
+			return true
+		})
+		if bound == nil {
+			core.Fail("sliceMapToSlice: no counting loop bounded by a variable")
+		}
+		k := 0
+		var inLoop func(n ast.Node, depth int)
+		inLoop = func(n ast.Node, depth int) {
+			ast.Inspect(n, func(nd ast.Node) bool {
+				switch x := nd.(type) {
+				case *ast.RangeStmt:
+					inLoop(x.Body, depth+1)
+					return false
+				case *ast.ForStmt:
+					inLoop(x.Body, depth+1)
+					return false
+				case *ast.AssignStmt:
+					if depth == 0 || len(x.Lhs) != 1 || len(x.Rhs) != 1 {
+						return true
+					}
+					lid, ok := ast.Unparen(x.Lhs[0]).(*ast.Ident)
+					if !ok || info.ObjectOf(lid) != bound {
+						return true
+					}
+					k++
+					key := fmt.Sprintf("arraysize:max#%d", k)
+					good := false
+					rhs := core.ExprStr(x.Rhs[0])
+					for _, a := range core.Atoms(core.GuardsAt(info, fd.Body, x)) {
+						be, ok := ast.Unparen(a.Expr).(*ast.BinaryExpr)
+						if !ok || !a.Pos {
+							continue
+						}
+						l, rr := core.ExprStr(be.X), core.ExprStr(be.Y)
+						if (be.Op == token.GTR && l == rhs && rr == lid.Name) || (be.Op == token.LSS && l == lid.Name && rr == rhs) {
+							good = true
+						}
+					}
+					r.Check(good, key, p.Pos(x.Pos()), "assigned under `index > max`", "the variable that sizes the decoded array ("+lid.Name+") is assigned "+rhs+" in a loop without comparing the two: it ends up as whichever index the loop saw last, not the highest one, and every item above it is dropped from the array")
+				}
+				return true
+			})
+		}
+		inLoop(fd.Body, 0)
+		if k == 0 {
+			core.Fail("sliceMapToSlice: the bound variable is never assigned in a loop")
+		}
+		// negative indexes are rejected
+		neg := false
+		ast.Inspect(fd.Body, func(nd ast.Node) bool {
+			ifs, ok := nd.(*ast.IfStmt)
+			if !ok {
+				return true
+			}
+			if be, ok := ast.Unparen(ifs.Cond).(*ast.BinaryExpr); ok && be.Op == token.LSS {
+				if z, isConst := core.ConstStr(info, be.Y); (isConst && z == "0") || core.ExprStr(be.Y) == "0" {
+					if core.Terminates(info, ifs.Body.List) {
+						neg = true
+					}
+				}
+			}
+			return true
+		})
+		r.Check(neg, "arraysize:negative", p.Pos(fd.Pos()), "a negative index is an error", "sliceMapToSlice accepts a negative index and then leaves it out: `p[ids][-1]=7` validates as if it had not been sent")
+	})
 }
 
 func c05Table(r *core.Report) {
